@@ -286,9 +286,10 @@ def _vk(var):
 # ----------------------------------------------------------------------------- helpers (STE functions)
 def helper_stream(ctx, torch, report, notes):
     """exactness on integers + gradient pass-through, and (coq expr, impl value) pairs for the correspondence"""
-    import plinio.cost.gap8_latency as g8
-    import plinio.cost.diana_latency as di
-    import plinio.cost.ne16_latency as ne
+    import importlib   # `import plinio.cost.x as m` would bind the CostSpec object that shadows the submodule
+    g8 = importlib.import_module('plinio.cost.gap8_latency')
+    di = importlib.import_module('plinio.cost.diana_latency')
+    ne = importlib.import_module('plinio.cost.ne16_latency')
     pairs = []
     ints = list(range(0, 131)) + [255, 256, 257, 511, 512, 513]
     fr = [Fraction(n, 4) for n in range(1, 140, 3) if n % 4] + [Fraction(n, 4) for n in (127, 129, 511, 513, 2047, 2049)]
